@@ -165,9 +165,9 @@ func dlCase(base string, d dlDesc) (corr.Case, error) {
 
 func runDirLock(c *corr.Ctx) error {
 	c.Meta("run_module", "RunDirLock")
-	c.Meta("rule", "3 contenders (2..4 in random cases) on one directory under the controlled scheduler; schedules: every word of length b over the contenders (b=6 quick, 8 thorough), every schedule of at most 4 runs of lengths 1..4 (thorough: 5 runs of lengths 1..3), random block schedules; each completed round-robin. Compared after every grant: whether the grant ran, the yield point reached (pc), who has the directory, whether LOCK exists. non-trivial = some contender was refused (busy) or had to retry, or two contenders had the directory. Cases are de-duplicated by observed trace. Process mode: the same comparison with 3 real child processes of the harness binary, each parking at the yield points through pipes (witness schedule + random schedules; thorough: all prefixes of length 5)")
+	c.Meta("rule", "3 contenders (2..4 in random cases) on one directory under the controlled scheduler; schedules: every word of length b over the contenders (b=6 quick, 7 thorough), every schedule of at most 4 runs of lengths 1..4 (thorough: also 5 runs of lengths 1..2), random block schedules; each completed round-robin. Compared after every grant: whether the grant ran, the yield point reached (pc), who has the directory, whether LOCK exists. non-trivial = some contender was refused (busy) or had to retry, or two contenders had the directory. Cases are de-duplicated by observed trace. Process mode: the same comparison with 3 real child processes of the harness binary, each parking at the yield points through pipes (witness schedule + random schedules; thorough: all prefixes of length 5)")
 	c.Meta("exhaustive", true)
-	c.Meta("exhaustive_scope", "3 contenders: all schedule prefixes up to the bound and all schedules with at most 3 (thorough 4) context switches with runs of length <= 4")
+	c.Meta("exhaustive_scope", "3 contenders: all schedule prefixes up to the bound and all schedules with at most 3 context switches with runs of length <= 4 (thorough: also 4 switches, runs <= 2)")
 	base := c.Out
 	emit := func(d dlDesc, seen map[string]bool) error {
 		run := dlCase
@@ -211,7 +211,7 @@ func runDirLock(c *corr.Ctx) error {
 	seen := map[string]bool{}
 	var ferr error
 	// 1. all prefixes
-	bound := c.Scale(6, 8)
+	bound := c.Scale(6, 7)
 	if c.Tier == "search" {
 		bound = 8
 	}
@@ -225,9 +225,6 @@ func runDirLock(c *corr.Ctx) error {
 	}
 	// 2. context-switch bounded
 	blocks, maxRun := 4, 4
-	if c.Tier == "thorough" {
-		blocks, maxRun = 5, 3
-	}
 	var rec func(prefix []int, last, left int)
 	rec = func(prefix []int, last, left int) {
 		if ferr != nil {
@@ -252,6 +249,10 @@ func runDirLock(c *corr.Ctx) error {
 		}
 	}
 	rec(nil, -1, blocks)
+	if ferr == nil && c.Tier == "thorough" {
+		blocks, maxRun = 5, 2
+		rec(nil, -1, blocks)
+	}
 	if ferr != nil {
 		return ferr
 	}
@@ -271,14 +272,14 @@ func runDirLock(c *corr.Ctx) error {
 			return ferr
 		}
 	}
-	for i := 0; i < c.Scale(20, 200); i++ {
+	for i := 0; i < c.Scale(20, 100); i++ {
 		c.Count("process_schedules")
 		if err := emit(dlDesc{N: 3, Schedule: sched.RandomBlocks(c.Rng, 3, 8+c.Rng.Intn(16), 4), Procs: true}, procSeen); err != nil {
 			return err
 		}
 	}
 	// 3. random
-	for i := 0; i < c.Scale(300, 6000); i++ {
+	for i := 0; i < c.Scale(300, 2000); i++ {
 		n := 2 + c.Rng.Intn(3)
 		d := dlDesc{N: n, Schedule: sched.RandomBlocks(c.Rng, n, 8+c.Rng.Intn(24), 4)}
 		c.Count(fmt.Sprintf("random.n=%d", n))
